@@ -235,7 +235,7 @@ def compare(model, variant, script, wrapper=(), env_extra=None):
     return Mismatch("diff", variant, script, out, mout,
                     "first differing line: library `%s` / model `%s`" % (d[1], d[2]))
 
-def shrink(script, still_fails, max_tests=400):
+def shrink(script, still_fails, max_tests=120):
     """Delta debugging on lines; removed lines become comments so numbering is kept."""
     lines = script.splitlines()
     idx = [i for i, l in enumerate(lines) if l and not l.startswith("#")]
